@@ -280,6 +280,10 @@ func (s *streamHTTP) RecvMsg(m interface{}) error {
 			return err
 		}
 	}
+	if sh := s.opts.statsHandler; sh != nil && !(s.method.hasBody && s.hasBody) {
+		// The message was built from the URL alone.
+		sh.HandleRPC(s.ctx, inPayload(false, args, nil, time.Now()))
+	}
 	return nil
 }
 
